@@ -264,6 +264,56 @@ func c13Panel(ix *s2.ShapeIndex, shapes []s2.Shape) string {
 	return sb.String()
 }
 
+// c13ReusedPanel asks long-lived query objects (created once, reused across index growth) the
+// containment and crossing questions of the panel.
+type c13Reused struct {
+	pq [3]*s2.ContainsPointQuery
+	cq *s2.CrossingEdgeQuery
+}
+
+func c13ReusedPanelStr(ix *s2.ShapeIndex, shapes []s2.Shape, r *c13Reused) string {
+	var sb strings.Builder
+	id := map[s2.Shape]int{}
+	for i, s := range shapes {
+		id[s] = i
+	}
+	probes := []s2.Point{
+		s2.PointFromLatLng(s2.LatLngFromDegrees(10, 10)),
+		s2.PointFromLatLng(s2.LatLngFromDegrees(12, 14)),
+		s2.PointFromLatLng(s2.LatLngFromDegrees(10, 18)),
+		s2.PointFromLatLng(s2.LatLngFromDegrees(40, -70)),
+		s2.PointFromLatLng(s2.LatLngFromDegrees(12.3, 14.1)),
+		s2.PointFromLatLng(s2.LatLngFromDegrees(9.5, 10.5)),
+	}
+	models := []s2.VertexModel{s2.VertexModelOpen, s2.VertexModelSemiOpen, s2.VertexModelClosed}
+	for mi := range models {
+		if r.pq[mi] == nil {
+			r.pq[mi] = s2.NewContainsPointQuery(ix, models[mi])
+		}
+		for _, p := range probes {
+			var ids []int
+			for _, s := range r.pq[mi].ContainingShapes(p) {
+				ids = append(ids, id[s])
+			}
+			sort.Ints(ids)
+			fmt.Fprintf(&sb, "%v%v;", r.pq[mi].Contains(p), ids)
+		}
+	}
+	if r.cq == nil {
+		r.cq = s2.NewCrossingEdgeQuery(ix)
+	}
+	a, b := s2.PointFromLatLng(s2.LatLngFromDegrees(0, 0)), s2.PointFromLatLng(s2.LatLngFromDegrees(20, 20))
+	var parts []string
+	for s, es := range r.cq.CrossingsEdgeMap(a, b, s2.CrossingTypeAll) {
+		e2 := append([]int(nil), es...)
+		sort.Ints(e2)
+		parts = append(parts, fmt.Sprintf("%d:%v", id[s], e2))
+	}
+	sort.Strings(parts)
+	sb.WriteString(strings.Join(parts, ","))
+	return sb.String()
+}
+
 func c13IndexMachine() *machine {
 	mk := c13Shapes()
 	nS := len(mk)
@@ -271,6 +321,7 @@ func c13IndexMachine() *machine {
 		opBuild = iota
 		opReset
 		opQuery
+		opReused // long-lived query objects; legal only while the index is fresh
 		opAdd0
 	)
 	m := &machine{name: "M1-ShapeIndex", nOps: opAdd0 + nS}
@@ -282,6 +333,8 @@ func c13IndexMachine() *machine {
 			return "Reset"
 		case opQuery:
 			return "QueryPanel"
+		case opReused:
+			return "ReusedQueriesPanel"
 		}
 		return fmt.Sprintf("Add(shape%d)", op-opAdd0)
 	}
@@ -297,6 +350,28 @@ func c13IndexMachine() *machine {
 		return cur
 	}
 	m.enabled = func(hist []int, op int) bool {
+		if op == opReused {
+			// a long-lived query may only be asked while no update is pending (its iterator does not
+			// apply updates): the previous operation must have built the index
+			if len(hist) == 0 {
+				return false
+			}
+			last := hist[len(hist)-1]
+			if last != opBuild && last != opQuery && last != opReused {
+				return false
+			}
+			// and Reset invalidates every query object: no Reset since the first reused panel
+			seen := false
+			for _, o := range hist {
+				if o == opReused {
+					seen = true
+				}
+				if o == opReset && seen {
+					return false
+				}
+			}
+			return true
+		}
 		if op >= opAdd0 {
 			for _, k := range current(hist) {
 				if k == op-opAdd0 {
@@ -313,8 +388,30 @@ func c13IndexMachine() *machine {
 		var kinds []int
 		obs := ""
 		bad := ""
+		reused := &c13Reused{}
+		reusedCreated := "" // the long-lived query objects are harness-side state: part of the key
 		for i, o := range hist {
 			switch {
+			case o == opReused:
+				if reused.cq == nil {
+					reusedCreated = fmt.Sprintf("created-with-shapes%v", kinds)
+				}
+				reusedCreated += fmt.Sprintf(";asked-with%v", kinds)
+				p := c13ReusedPanelStr(ix, shapes, reused)
+				if i == len(hist)-1 {
+					fx := s2.NewShapeIndex()
+					var fs []s2.Shape
+					for _, k := range kinds {
+						s := mk[k]()
+						fs = append(fs, s)
+						fx.Add(s)
+					}
+					exp := c13ReusedPanelStr(fx, fs, &c13Reused{})
+					obs = p
+					if p != exp {
+						bad = fmt.Sprintf("long-lived ContainsPointQuery / CrossingEdgeQuery objects reused after the index grew give answers that differ from fresh queries on an index holding the same shapes %v (first difference at byte %d)", kinds, firstDiff(p, exp))
+					}
+				}
 			case o == opBuild:
 				ix.Build()
 			case o == opReset:
@@ -349,18 +446,22 @@ func c13IndexMachine() *machine {
 			}
 		}
 		d := ix.VerifIndexDump()
-		return fmt.Sprintf("%v|%s", kinds, dumpKey(d)) + fmt.Sprintf("|next=%d n=%d", d.NextID, d.NumShapes), bad, obs
+		return fmt.Sprintf("%v|%s", kinds, dumpKey(d)) + fmt.Sprintf("|next=%d n=%d|reused:%s", d.NextID, d.NumShapes, reusedCreated), bad, obs
 	}
 	return m
 }
 
 // ---- machine 2: Loop invert / query ------------------------------------------------
 
-func c13LoopMachine(nv int) *machine {
-	ctr := s2.PointFromLatLng(s2.LatLngFromDegrees(-15, 120))
+func c13LoopMachine(nv int) *machine { return c13LoopMachineAt(nv, -15, 120) }
+
+// c13LoopMachineAt: the loop machine for a loop centred at (lat, lng); a loop around a pole takes
+// the bound-recomputing branch of Invert.
+func c13LoopMachineAt(nv int, lat, lng float64) *machine {
+	ctr := s2.PointFromLatLng(s2.LatLngFromDegrees(lat, lng))
 	mkLoop := func() *s2.Loop { return s2.RegularLoop(ctr, s1.Degree*12, nv) }
 	other := s2.RegularLoop(ctr, s1.Degree*4, 36)
-	otherBig := s2.RegularLoop(s2.PointFromLatLng(s2.LatLngFromDegrees(-15, 128)), s1.Degree*9, 40)
+	otherBig := s2.RegularLoop(s2.Point{Vector: ctr.Add(s2.Ortho(ctr).Mul(0.14)).Normalize()}, s1.Degree*9, 40)
 	pIn := ctr
 	pOut := s2.PointFromLatLng(s2.LatLngFromDegrees(60, -60))
 	pEdge := mkLoop().Vertex(3)
@@ -378,7 +479,7 @@ func c13LoopMachine(nv int) *machine {
 		{"Intersects(overlapping)", func(l *s2.Loop) string { return fmt.Sprint(l.Intersects(otherBig), l.Contains(otherBig)) }},
 		{"Area+RectBound", func(l *s2.Loop) string { return fmt.Sprint(l.Area(), l.RectBound(), l.ContainsOrigin()) }},
 	}
-	m := &machine{name: fmt.Sprintf("M2-Loop(%d vertices)", nv), nOps: len(ops)}
+	m := &machine{name: fmt.Sprintf("M2-Loop(%d vertices at %g,%g)", nv, lat, lng), nOps: len(ops)}
 	m.opStr = func(op int) string { return ops[op].name }
 	m.run = func(hist []int) (string, string, string) {
 		l := mkLoop()
@@ -399,7 +500,9 @@ func c13LoopMachine(nv int) *machine {
 			}
 		}
 		d := l.VerifIndex().VerifIndexDump()
-		return fmt.Sprintf("v0=%v inside=%v|%s", l.Vertex(0), l.ContainsOrigin(), dumpKey(d)), bad, obs
+		// the canonical key must cover every field of the implementation that a later answer can depend
+		// on: vertex order, origin flag, the cached bound, and the index state
+		return fmt.Sprintf("v0=%v inside=%v bound=%v|%s", l.Vertex(0), l.ContainsOrigin(), l.RectBound(), dumpKey(d)), bad, obs
 	}
 	return m
 }
@@ -463,9 +566,9 @@ func c13PolygonMachine(variant int) *machine {
 			}
 		}
 		var sb strings.Builder
-		fmt.Fprintf(&sb, "inv=%d|", inv%2)
+		fmt.Fprintf(&sb, "inv=%d bound=%v|", inv%2, p.RectBound())
 		for _, l := range p.Loops() {
-			fmt.Fprintf(&sb, "%v%v%v;%s#", l.Vertex(0), l.ContainsOrigin(), l.IsHole(), dumpKey(l.VerifIndex().VerifIndexDump()))
+			fmt.Fprintf(&sb, "%v%v%v%v;%s#", l.Vertex(0), l.ContainsOrigin(), l.IsHole(), l.RectBound(), dumpKey(l.VerifIndex().VerifIndexDump()))
 		}
 		if ix := p.VerifIndex(); ix != nil {
 			sb.WriteString(dumpKey(ix.VerifIndexDump()))
@@ -617,19 +720,35 @@ func c13IndexTargetMachine(furthest bool) *machine {
 	var ops []opT
 	if furthest {
 		ops = []opT{
-			{"FindEdges(indexTarget0)", func(q *s2.EdgeQuery) string { return resStr(q.FindEdges(s2.NewMaxDistanceToShapeIndexTarget(mkTargetIndex(0)))) }},
-			{"FindEdges(indexTarget1)", func(q *s2.EdgeQuery) string { return resStr(q.FindEdges(s2.NewMaxDistanceToShapeIndexTarget(mkTargetIndex(1)))) }},
+			{"FindEdges(indexTarget0)", func(q *s2.EdgeQuery) string {
+				return resStr(q.FindEdges(s2.NewMaxDistanceToShapeIndexTarget(mkTargetIndex(0))))
+			}},
+			{"FindEdges(indexTarget1)", func(q *s2.EdgeQuery) string {
+				return resStr(q.FindEdges(s2.NewMaxDistanceToShapeIndexTarget(mkTargetIndex(1))))
+			}},
 			{"FindEdges(point)", func(q *s2.EdgeQuery) string { return resStr(q.FindEdges(s2.NewMaxDistanceToPointTarget(pt))) }},
-			{"Distance(indexTarget0)", func(q *s2.EdgeQuery) string { return fmt.Sprint(float64(q.Distance(s2.NewMaxDistanceToShapeIndexTarget(mkTargetIndex(0))))) }},
-			{"IsDistanceGreater(indexTarget1)", func(q *s2.EdgeQuery) string { return fmt.Sprint(q.IsDistanceGreater(s2.NewMaxDistanceToShapeIndexTarget(mkTargetIndex(1)), lim)) }},
+			{"Distance(indexTarget0)", func(q *s2.EdgeQuery) string {
+				return fmt.Sprint(float64(q.Distance(s2.NewMaxDistanceToShapeIndexTarget(mkTargetIndex(0)))))
+			}},
+			{"IsDistanceGreater(indexTarget1)", func(q *s2.EdgeQuery) string {
+				return fmt.Sprint(q.IsDistanceGreater(s2.NewMaxDistanceToShapeIndexTarget(mkTargetIndex(1)), lim))
+			}},
 		}
 	} else {
 		ops = []opT{
-			{"FindEdges(indexTarget0)", func(q *s2.EdgeQuery) string { return resStr(q.FindEdges(s2.NewMinDistanceToShapeIndexTarget(mkTargetIndex(0)))) }},
-			{"FindEdges(indexTarget1)", func(q *s2.EdgeQuery) string { return resStr(q.FindEdges(s2.NewMinDistanceToShapeIndexTarget(mkTargetIndex(1)))) }},
+			{"FindEdges(indexTarget0)", func(q *s2.EdgeQuery) string {
+				return resStr(q.FindEdges(s2.NewMinDistanceToShapeIndexTarget(mkTargetIndex(0))))
+			}},
+			{"FindEdges(indexTarget1)", func(q *s2.EdgeQuery) string {
+				return resStr(q.FindEdges(s2.NewMinDistanceToShapeIndexTarget(mkTargetIndex(1))))
+			}},
 			{"FindEdges(point)", func(q *s2.EdgeQuery) string { return resStr(q.FindEdges(s2.NewMinDistanceToPointTarget(pt))) }},
-			{"Distance(indexTarget0)", func(q *s2.EdgeQuery) string { return fmt.Sprint(float64(q.Distance(s2.NewMinDistanceToShapeIndexTarget(mkTargetIndex(0))))) }},
-			{"IsDistanceLess(indexTarget1)", func(q *s2.EdgeQuery) string { return fmt.Sprint(q.IsDistanceLess(s2.NewMinDistanceToShapeIndexTarget(mkTargetIndex(1)), lim)) }},
+			{"Distance(indexTarget0)", func(q *s2.EdgeQuery) string {
+				return fmt.Sprint(float64(q.Distance(s2.NewMinDistanceToShapeIndexTarget(mkTargetIndex(0)))))
+			}},
+			{"IsDistanceLess(indexTarget1)", func(q *s2.EdgeQuery) string {
+				return fmt.Sprint(q.IsDistanceLess(s2.NewMinDistanceToShapeIndexTarget(mkTargetIndex(1)), lim))
+			}},
 		}
 	}
 	me := s1.ChordAngleFromAngle(lattice.Deg(0.05))
@@ -664,6 +783,118 @@ func c13IndexTargetMachine(furthest bool) *machine {
 			}
 		}
 		return fmt.Sprintf("%+v", q.VerifOptions()), bad, obs
+	}
+	return m
+}
+
+// c13ResetMachine: one long-lived EdgeQuery on an index that grows.  EdgeQuery.Reset is the documented
+// step after modifying the index, so the legal histories are: queries, then (Add ...; Reset), then
+// queries again.  The index is above the brute-force threshold and its top-level covering changes
+// shape when clusters are added.
+func c13ResetMachine() *machine {
+	cluster := func(lat, lng float64, n int, step float64) func() s2.Shape {
+		return func() s2.Shape {
+			var pl s2.Polyline
+			for i := 0; i <= n; i++ {
+				pl = append(pl, lattice.LL(lat+step*float64(i%3), lng+step*float64(i)))
+			}
+			return &pl
+		}
+	}
+	initial := []func() s2.Shape{cluster(10, 10, 8, 0.01), cluster(10, 40, 8, 0.01), cluster(40, 10, 8, 0.01), cluster(40, 40, 8, 0.01)}
+	extra := []func() s2.Shape{cluster(10.2, 10.2, 40, 0.002), cluster(40.3, 39.7, 40, 0.002), cluster(-20, -100, 30, 0.5)}
+	targets := []s2.Point{lattice.LL(10.1, 10.1), lattice.LL(25, 25), lattice.LL(40.31, 39.71)}
+	resStr := func(rs []s2.EdgeQueryResult) string {
+		var s []string
+		for _, r := range rs {
+			s = append(s, fmt.Sprintf("%d/%d@%v", r.ShapeID(), r.EdgeID(), float64(r.Distance())))
+		}
+		return strings.Join(s, ",")
+	}
+	const (
+		opFind0 = iota
+		opFind1
+		opFind2
+		opDist0
+		opReset
+		opAdd0
+	)
+	nOps := opAdd0 + len(extra)
+	m := &machine{name: "M5-EdgeQuery-Reset-after-index-growth", nOps: nOps}
+	m.opStr = func(op int) string {
+		switch {
+		case op <= opFind2:
+			return fmt.Sprintf("FindEdges(target%d)", op)
+		case op == opDist0:
+			return "Distance(target0)"
+		case op == opReset:
+			return "Reset"
+		}
+		return fmt.Sprintf("Add(cluster%d)", op-opAdd0)
+	}
+	m.enabled = func(hist []int, op int) bool {
+		dirty := false // index modified since the last Reset (or creation of the query)
+		added := map[int]bool{}
+		for _, o := range hist {
+			switch {
+			case o >= opAdd0:
+				dirty = true
+				added[o] = true
+			case o == opReset:
+				dirty = false
+			}
+		}
+		if op >= opAdd0 {
+			return !added[op]
+		}
+		if op == opReset {
+			return true
+		}
+		return !dirty // a query on a modified index needs a Reset first
+	}
+	m.run = func(hist []int) (string, string, string) {
+		build := func(adds []int) *s2.ShapeIndex {
+			ix := s2.NewShapeIndex()
+			for _, f := range initial {
+				ix.Add(f())
+			}
+			for _, a := range adds {
+				ix.Add(extra[a]())
+			}
+			return ix
+		}
+		ix := build(nil)
+		mkq := func(x *s2.ShapeIndex) *s2.EdgeQuery {
+			return s2.NewClosestEdgeQuery(x, s2.NewClosestEdgeQueryOptions().MaxResults(200))
+		}
+		q := mkq(ix)
+		ask := func(q *s2.EdgeQuery, op int) string {
+			if op == opDist0 {
+				return fmt.Sprint(float64(q.Distance(s2.NewMinDistanceToPointTarget(targets[0]))))
+			}
+			return resStr(q.FindEdges(s2.NewMinDistanceToPointTarget(targets[op])))
+		}
+		var adds []int
+		bad, obs := "", ""
+		for i, o := range hist {
+			switch {
+			case o >= opAdd0:
+				ix.Add(extra[o-opAdd0]())
+				adds = append(adds, o-opAdd0)
+			case o == opReset:
+				q.Reset()
+			default:
+				got := ask(q, o)
+				if i == len(hist)-1 {
+					exp := ask(mkq(build(adds)), o)
+					obs = got
+					if got != exp {
+						bad = fmt.Sprintf("%s on a long-lived EdgeQuery (Reset after the index grew) differs from a fresh query on an index holding the same shapes: %d vs %d characters of results", m.opStr(o), len(got), len(exp))
+					}
+				}
+			}
+		}
+		return "", bad, obs
 	}
 	return m
 }
@@ -767,6 +998,8 @@ func runC13(c *core.Ctx) {
 	for _, nv := range []int{8, 40, 100} {
 		searchDedup(c, c13LoopMachine(nv), core.Pick(c, 5, 7))
 	}
+	searchDedup(c, c13LoopMachineAt(40, 90, 0), core.Pick(c, 5, 7))
+	searchDedup(c, c13LoopMachineAt(64, -90, 0), core.Pick(c, 4, 7))
 	for v := 0; v < 2; v++ {
 		searchDedup(c, c13PolygonMachine(v), core.Pick(c, 4, 6))
 	}
@@ -775,13 +1008,15 @@ func runC13(c *core.Ctx) {
 	searchAll(c, c13OtherQueriesMachine(), core.Pick(c, 3, 4))
 	searchAll(c, c13IndexTargetMachine(false), core.Pick(c, 3, 5))
 	searchAll(c, c13IndexTargetMachine(true), core.Pick(c, 3, 5))
+	searchAll(c, c13ResetMachine(), core.Pick(c, 5, 7))
 }
 
 func c13Machines() []*machine {
-	ms := []*machine{c13IndexMachine(), c13QueryMachine(false), c13QueryMachine(true), c13OtherQueriesMachine(), c13IndexTargetMachine(false), c13IndexTargetMachine(true)}
+	ms := []*machine{c13IndexMachine(), c13QueryMachine(false), c13QueryMachine(true), c13OtherQueriesMachine(), c13IndexTargetMachine(false), c13IndexTargetMachine(true), c13ResetMachine()}
 	for _, nv := range []int{8, 40, 100} {
 		ms = append(ms, c13LoopMachine(nv))
 	}
+	ms = append(ms, c13LoopMachineAt(40, 90, 0), c13LoopMachineAt(64, -90, 0))
 	for v := 0; v < 2; v++ {
 		ms = append(ms, c13PolygonMachine(v))
 	}
